@@ -2,6 +2,7 @@
 //! E1 engine of /verif: native symbolic execution of the repo's code over the stand-in algebra,
 //! obligations discharged by z3.  Writes a JSON part-file; the `check` driver turns it into
 //! evidence + verdict.
+pub mod alloc_meter;
 pub mod atoms;
 pub mod eng;
 pub mod explore;
@@ -12,6 +13,9 @@ pub mod report;
 pub mod rng;
 pub mod solver;
 pub mod world;
+
+#[global_allocator]
+static GLOBAL: alloc_meter::Meter = alloc_meter::Meter;
 
 fn main() {
     let args: Vec<String> = std::env::args().collect();
